@@ -65,10 +65,11 @@ def gen(rng, flavour):
                 acts[-1]['container'] = ('list', 'list', 'tuple', 'drain')[(mlen + i) % 4]
         else:
             acts.append({'t': t, 'k': k, 'ids': [], 'd': 0, 'fail': None})
-    if flavour == 'c07' and rng.random() < 0.02:
-        # several hundred plain submissions at once
-        acts.append({'t': rng.choice([0, t / 2, t]), 'k': 'burst', 'ids': [f'b{j}' for j in range(rng.choice([255, 257, 300]))],
-                     'd': 0, 'fail': None})
+    if rng.random() < 0.02:
+        # several hundred to a thousand plain submissions at one instant
+        acts.append({'t': rng.choice([0, t / 2, t]), 'k': 'burst',
+                     'ids': [f'b{j}' for j in range(rng.choice([255, 257, 300, 513, 700, 1100]))], 'd': 0, 'fail': None})
+        acts.sort(key=lambda a: a['t'])
     p_fail = {'c03': 0.25, 'c07': 0.2, 'c08': 0.1}[flavour]
     fails = sorted(i for i in range(6) if rng.random() < p_fail)
     foreign = []
@@ -931,6 +932,8 @@ class BufferCheck(Check):
         st['executions'] += 1
         if r.sched.delays_fired:
             st['long_delay_injected'] += 1
+        if any(a['k'] == 'burst' and len(a['ids']) > 512 for a in prog.get('acts', ())):
+            st['burst_of_more_than_512_submissions_at_one_instant'] += 1
         v = BView(r.log)
         st['loop_exception_handler_events'] += sum(1 for e in r.log if e[0] == 'loop_exc')
         if prog['cfg']['debug']:
@@ -980,16 +983,16 @@ class BufferCheck(Check):
         q = tier == 'quick'
         k = 1 if q else 20
         if self.pid == 'C03':
-            return {'nontrivial': 3000 * k, 'failed_call_followed_by_retry': 1000 * k,
+            return {'burst_of_more_than_512_submissions_at_one_instant': 20 * k, 'nontrivial': 3000 * k, 'failed_call_followed_by_retry': 1000 * k,
                     'submission_while_running': 1000 * k, 'foreign_submission': 1000 * k,
                     'failing_producer_with_prefix': 300 * k}
         if self.pid == 'C07':
-            f = {'waits_issued_with_undelivered': 2000 * k}
+            f = {'waits_issued_with_undelivered': 2000 * k, 'burst_of_more_than_512_submissions_at_one_instant': 20 * k}
             for s_ in ('running', 'collecting', 'armed'):
                 f[f'wait_in_state_{s_}'] = 200 * k
             f['shutdown_in_state_idle'] = 100 * k
             return f
-        return {'foreign_thread_programs_judged_O1_O2': 3000 * k, 'bursts_judged_O4': 5000 * k, 'multi_arrival_bursts_judged': 1500 * k,
+        return {'burst_of_more_than_512_submissions_at_one_instant': 20 * k, 'foreign_thread_programs_judged_O1_O2': 3000 * k, 'bursts_judged_O4': 5000 * k, 'multi_arrival_bursts_judged': 1500 * k,
                 'arrival_during_run_or_retry': 1000 * k, 'invocations_judged_O3': 5000 * k}
 
     @property
@@ -1004,7 +1007,7 @@ class BufferCheck(Check):
                    'non-trivial = >= 2 submissions and a retry after a failed call, a submission landing while the function runs, '
                    'a foreign-thread submission or a failing producer with a non-empty prefix; distinct = (program, baton moves)',
             'C07': 'plus foreign submit-then-wait_from_anywhere threads, or a loop shutdown (cancel all tasks, gather, close) at a grid instant '
-                   'and, for four short programs, at every yield point of the loop thread; bursts of 255-300 submissions; a function '
+                   'and, for four short programs, at every yield point of the loop thread; bursts of 255-1100 submissions at one instant; a function '
                    'invocation begun after the shutdown started only ends by cancellation; '
                    'non-trivial = a wait() issued while something was undelivered, or a shutdown in a non-idle buffer state',
             'C08': 'immediately available submissions only, no forced flush before the judged calls; failing producers; the safety '
